@@ -924,6 +924,14 @@ impl<const N: usize> SubscriptionsInner<N> {
 
     /// Remove entries that every subscription has already reported on.
     fn purge_reported_changes(&mut self) {
+        if self.subscriptions_count != self.subscriptions.len() {
+            // A subscription is in flight - being primed or reported on, and thus moved
+            // out of `subscriptions` into its `ReportContext`. What it has seen so far
+            // is not known here, so nothing can be considered reported by everyone;
+            // a later purge, once it is back in the table, will do the trimming.
+            return;
+        }
+
         if let Some(min_seen_attr_change_id) = self
             .subscriptions
             .iter()
